@@ -55,6 +55,14 @@ message_filter back to their import-time contents so that worlds do not inherit 
 (d) additionally runs the generator's block-count variants (Variable blocks with 0 / 2 / 255 entries, mixed counts, trailing blocks
 omitted; 255 only at thorough) and compares the block lists (names in order + multiplicities, empty lists included).
 
+Delivery paths (added after a missed seed): part (c) delivers log events through every public entry -- logger.log_*() (maxlen 1-3),
+logger.add_log_entry(entry) directly (maxlen 2; what the fan-out and the log import call), and WrappingMessageLogger([logger,
+second logger]).log_*() with pause/resume of the second logger in the alphabet (maxlen 2, one level shallower); the same view oracle
+holds for every logger: a paused logger retains nothing that arrives while it is paused, whoever hands it the entry.
+The harness reads compiled filter nodes only through tolerant accessors (_node_literal / getattr); reference verdicts come from the
+generated filter text.  Literals now include False, a UUID-valued string and a quoted string with escapes; the grammar has no
+negative numbers.  The false-everywhere leaf of (a) is ``Foo.Bar.N != None`` (None literal under !, &&, ||).
+
 Deviations from DESIGN: 8 leaves instead of 6 in (a) (two type-inapplicable leaves: one raises in both modes, one only without
 short-circuit); chains with negated terms are enumerated over the first 4 leaves only (size).  Acks/extra are compared as
 sequences (a wire-decoded message's ``extra`` is a bytearray and comes back from import as a list of ints; the datagram is equal).
@@ -1577,7 +1585,8 @@ def run(run: Run):
         f"unparenthesised chains of length 2..{3 if quick else 4} (all leaves; negated terms over 4 leaves) x {len(ENTRY_IDS_A)} entries x "
         f"short_circuit {{T,F}}; (b) {len(SELECTORS)} selectors x 11 operators x {len(LITS)} literals x {len(ENTRY_IDS_B)} entries x {{T,F}}, also "
         f"through FilteringMessageLogger.add_log_entry/set_filter; (c) BFS to depth {depth} over {{log(LLUDP|EQ|HTTP), set_filter(x4), pause, "
-        f"resume, clear}} on FilteringMessageLogger(maxlen 1, 2, 3) + every history prefix.set_filter(narrowing).log^(3..4).set_filter(wider) "
+        f"resume, clear}} on FilteringMessageLogger(maxlen 1, 2, 3 via log_*; maxlen 2 via add_log_entry; maxlen 2 behind a WrappingMessageLogger "
+        f"with a second logger and its pause/resume, depth {wrap_depth}) + every history prefix.set_filter(narrowing).log^(3..4).set_filter(wider) "
         f"on maxlen 2 without deduplication ({run.counters.get('c_overflow_histories', 0)} histories), states deduplicated on (ring-buffer kinds, view as (kind, ring position), "
         f"paused, filter); (d) {'every value row' if not quick else 'row 0'} of each of {len(names)} templates x {{fresh, wire-decoded}} x "
         f"{{frozen, not}} through freeze/thaw and export/import, {len(EQ_EVENTS)} EQ events, {len(HTTP_VARIANTS)} HTTP flows. "
